@@ -215,6 +215,15 @@ func hasQuantAssumption(o *Obligation) bool {
 	return false
 }
 
+func decidedUnsat(as []SolverAnswer) bool {
+	for _, a := range as {
+		if a.Status == "unsat" {
+			return true
+		}
+	}
+	return false
+}
+
 func decided(as []SolverAnswer) bool {
 	for _, a := range as {
 		if a.Status == "unsat" || a.Status == "sat" {
